@@ -8,7 +8,7 @@ API
     frame(version, flags, stream, opcode, body) -> bytes       response frame, any version
     frame_header_len(version) -> 8 | 9
     body_bytes(kind, length, seed, version=4) -> bytes         deterministic body content
-    event_body(desc, version) -> (bytes, event_type, expected_args)
+    event_body(desc, version) -> (bytes, event_type, expected_args); norm_event(args); garbage_event_body(desc)
     make_conn(version, compression=False) -> FeedConnection    (.pushed, .closes, .feed(chunk), .steps,
                                                                .step_budget -> RunawayLoop when exceeded)
     resolve_cuts(total, boundaries, spec) -> sorted cut offsets in (0, total)
@@ -100,6 +100,26 @@ def event_body(desc, version):
         else:
             exp = {"target_type": "KEYSPACE", "change_type": desc["change"], "keyspace": ks}
     return out, t, exp
+
+
+def norm_event(args):
+    """Event args as a watcher receives them (or as event_body() predicts them) in a comparable
+    form: addresses by their packed bytes whatever the text form."""
+    import ipaddress
+    out = {}
+    for k, val in args.items():
+        if k == "address":
+            a, port = val
+            ip = ipaddress.ip_address(bytes(a)) if isinstance(a, (bytes, bytearray)) else ipaddress.ip_address(a)
+            out[k] = (ip.packed.hex(), port)
+        else:
+            out[k] = val
+    return tuple(sorted(out.items()))
+
+
+def garbage_event_body(desc):
+    """An EVENT body that ends inside its second string: undecodable."""
+    return _string(desc["type"]) + b"\x00"
 
 
 def supported_body(compressions, cql_versions=("3.4.5",)):
